@@ -133,10 +133,10 @@ class Streams:
         for e in registry.get("bank"):
             missing = [k for k in ("country_code", "bank_code", "bic", "primary", "name", "short_name") if k not in e]
             if missing:
-                self.malformed_entries.append((e, missing))
+                self.malformed_entries.append((dict(e), missing))
                 e = {"country_code": "", "bank_code": "", "bic": None, "primary": False, "name": "",
                      "short_name": "", **e}
-            self.banks.append(e)
+            self.banks.append(dict(e))     # a copy: what the registry said when the check started
         self.wide = wide_alphabet()
 
     # ---- structure-conforming values
